@@ -52,7 +52,7 @@ type c03Case struct {
 	body    int
 }
 
-var c03Plans = []string{"ok", "ok", "s503", "s404", "d60:ok", "stall", "close", "rst", "half", "d1200:ok", "b70000:ok"}
+var c03Plans = []string{"ok", "ok", "s503", "s404", "d60:ok", "stall", "close", "rst", "half", "d1200:ok", "b70000:ok", "ok:goaway", "d60:ok:goaway"}
 var c03RetryPlans = []string{"ok", "s503|ok", "s503|s503|ok", "s503", "stall|ok", "stall", "close|ok", "close", "rst|rst|ok", "d300:ok|ok", "d300:s503|d300:ok", "half|ok", "s503|stall", "stall|close|ok"}
 
 // plans for the retry route WITHOUT a per-try timeout: the retry is decided from the response status / reset reason only
@@ -126,7 +126,7 @@ func planClass(p string) string {
 }
 
 func c03Engine(c *lab.Ctx) {
-	c.Rule("running MOSN, 3 protocol pairings x routes {fast, retry(per-try 200ms, 2 retries), unknown cluster, empty cluster, dead host, no route} x per-attempt upstream plans {ok,5xx,4xx,delay,stall,close,rst,half,late,big} x {two-way, abandoned by client}; 8 concurrent clients per protocol; distinct = (protocol, route, plan class, client outcome)")
+	c.Rule("running MOSN, 3 protocol pairings x routes {fast, retry(per-try 200ms, 2 retries), unknown cluster, empty cluster, dead host, no route} x per-attempt upstream plans {ok,5xx,4xx,delay,stall,close,rst,half,late,big,answer + go-away announcement} x {two-way, abandoned by client}; 8 concurrent clients per protocol; distinct = (protocol, route, plan class, client outcome)")
 	e, err := newEngine(c, engineProtos, c03Routes, nil, nil)
 	if err != nil {
 		c.Require("mosn started", false, err.Error())
